@@ -404,7 +404,7 @@ class MalformedHarness(Harness):
                  "menu of well-formed and malformed values (exhaustive over the menu, no numeric symbol)",)
   outside = ("malformed values outside the menu", "the XML parser itself")
   required_witnesses = ("well-formed", "malformed")
-  bounds = {"quick": "%d style attributes x (well-formed | malformed) values on region, p and span, next to a well-formed tts:color / "
+  bounds = {"quick": "%d style attributes x (well-formed | malformed) values on region, p, span and br, next to a well-formed tts:color / "
                      "tts:fontStyle whose value must be unaffected" % len(STYLE_ATTRS), "thorough": "same"}
   budget_s = {"quick": 120, "thorough": 300}
   validate_models = 2
@@ -416,14 +416,14 @@ class MalformedHarness(Harness):
     name, good, bad = STYLE_ATTRS[params["attr"]]
     vals = [(v, True) for v in good] + [(v, False) for v in bad]
     val, ok = vals[ex.choice("value", len(vals))]
-    where = ["region", "p", "span"][ex.choice("where", 3)]
+    where = ["region", "p", "span", "br"][ex.choice("where", 4)]
     esc = val.replace("&", "&amp;").replace('"', "&quot;").replace("\x02", "&#x2;")
     attr = 'tts:%s="%s"' % (name, esc)
     if "\x02" in val:
       return   # not XML 1.0
-    a = {"region": "", "p": "", "span": ""}
+    a = {"region": "", "p": "", "span": "", "br": ""}
     a[where] = attr
-    xml = tt_doc('<div><p region="r1" tts:fontStyle="italic" %s><span tts:color="blue" %s>X</span></p></div>' % (a["p"], a["span"]),
+    xml = tt_doc('<div><p region="r1" tts:fontStyle="italic" %s><span tts:color="blue" %s>X<br %s/></span></p></div>' % (a["p"], a["span"], a["br"]),
                  '<layout><region xml:id="r1" tts:backgroundColor="black" %s/></layout>' % a["region"])
     if where == "span" and name == "color":
       xml = xml.replace('tts:color="blue" ', "", 1)
@@ -448,6 +448,12 @@ class MalformedHarness(Harness):
       if "C04" in ex.active:
         ex.fail("C04:malformed-attribute-not-ignored", dict(det, site=exc[1], exc=type(exc[0]).__name__))
       return
+    if doc is not None:
+      # whatever was read can be snapshotted (style attributes are legal on every content element, br included, even
+      # where they do not apply)
+      _, exc = call(ex, ISD.from_model, doc, Fraction(0))
+      if exc:
+        ex.fail("C18:snapshot-raises", dict(det, site=exc[1], exc=type(exc[0]).__name__, tags=["c04-malformed"]))
     if "C04" not in ex.active:
       return
     ex.prove(doc is not None, "C04:malformed-attribute-not-ignored", det)
